@@ -92,7 +92,7 @@ def check_case(case):
     from pv.harness import build_objects, lib_objects
     objs = lib_objects(domain, build_objects(domain, objects))
     kind, exp = classify(dom, world, members, st)
-    if exp is not None and any(abs(v) > 10 ** 9 for v in exp[1].values()):
+    if exp is not None and pddl.beyond_float(exp):
         res.skipped = "magnitude-beyond-float-precision"
         return res
     has_forall = any("forall" in pddl.heads(pddl.find_action(dom, m[0])["eff"]) for m in members)
